@@ -289,6 +289,9 @@ def generate(model: Model):
     try:
         mod, tree = _fresh("_merge")
         for cdef in (x for x in tree.body if isinstance(x, ast.ClassDef) and x.name == "Merge"):
+            for fn in (x for x in cdef.body if isinstance(x, ast.FunctionDef) and x.name == "_filter_passthrough_available"):
+                for st in (x for x in ast.walk(fn) if isinstance(x, ast.If) and ".right" in ast.unparse(x.test) and "_get_original_predicate_columns" in ast.unparse(x.test)):
+                    yield "mutant", "revert:join-splits-conjunction-with-reduction", "R03j", mod.rel, _drop_stmt(mod, st)
             for fn in (x for x in cdef.body if isinstance(x, ast.FunctionDef) and x.name == "_get_original_predicate_columns"):
                 for st in (x for x in ast.walk(fn) if isinstance(x, ast.If) and "Elemwise" in ast.unparse(x.test)):
                     yield "mutant", "revert:join-lets-non-rowwise-predicate-pass", "R03j", mod.rel, _drop_stmt(mod, st)
